@@ -6,6 +6,7 @@ decrypters per group   loadDecrypters_fingerprints, foreign_fingerprint_has_no_d
                        rest_signed_route_rejects_key_of_another_group
 options                authOptions_prev_last_wins, authOptions_callback_irrelevant, authOptions_no_prev,
                        authorize_with_options_runs_iff, overridden_prev_secret_is_refused
+fail closed            unloadable_key_binds_nothing, loadDecrypters_fails_on_any_unloadable_key, verifierFor_ok
 rest monitor           rest_monitor_sound, authorize_ctx_forwarded
 converse               cs_complete_monitor_sound, csCovers_verifies, cryptionHandler_not_403, jwt_complete_monitor_sound, jwt_valid_credential_runs_handler, rest_valid_request_reaches_handler
 -/
@@ -463,6 +464,50 @@ example : restServe (V := String) { jwt := true } ["use0"] ["cm0", authorizeName
     { ran := false, status := 401, ctx := [], usesRan := 0 } := by decide
 example : restServe (V := String) { jwt := true } ["use0"] ["cm0", authorizeName, "use0"] { ran := true, status := 200, ctx := [("uid", "1")] } none =
     { ran := true, status := 200, ctx := [("uid", "1")], usesRan := 1 } := by decide
+
+/-! ## configuration errors fail closed -/
+
+/-- a group whose signature setting cannot be realised — strict without keys, or a key file that cannot be loaded — gets
+NO verifier: `bindFeaturedRoutes` returns the error and binds none of its routes (they answer 404, never the handler) -/
+theorem unloadable_key_binds_nothing {D : Type} (load : String → Option D) (o : RouteOpts) (keys : List KeyConf)
+    (hs : o.sig = true) (hk : o.sigKeys = true) (hl : loadDecrypters load keys = none) :
+    ∃ e, verifierFor load o keys = .error e := by
+  unfold verifierFor
+  cases hv : signatureVerifier o with
+  | none => exact ⟨_, rfl⟩
+  | some v => simp [hs, hk, hl]
+
+/-- one unloadable file among the keys is enough, wherever it stands in the list -/
+theorem loadDecrypters_fails_on_any_unloadable_key {D : Type} (load : String → Option D) (pre post : List KeyConf)
+    (k : KeyConf) (hk : load k.2 = none) : loadDecrypters load (pre ++ k :: post) = none := by
+  rw [loadDecrypters_eq, List.foldl_append, List.foldl_cons]
+  cases hp : List.foldl (ldStep load) (some []) pre with
+  | none => simp [ldStep, loadDecrypters_failed_stays_failed]
+  | some m => simp [ldStep, hk, loadDecrypters_failed_stays_failed]
+
+/-- when a verifier IS returned for a group with keys, every key was loaded and the gate is the one the decision list chose -/
+theorem verifierFor_ok {D : Type} (load : String → Option D) (o : RouteOpts) (keys : List KeyConf)
+    (v : List String → List String) (h : verifierFor load o keys = .ok v) :
+    signatureVerifier o = some v ∧ (o.sig = true → o.sigKeys = true → (loadDecrypters load keys).isSome = true) := by
+  unfold verifierFor at h
+  cases hv : signatureVerifier o with
+  | none => simp [hv] at h
+  | some v' =>
+    simp only [hv] at h
+    by_cases hc : (o.sig && o.sigKeys) = true
+    · rw [if_pos hc] at h
+      cases hl : loadDecrypters load keys with
+      | none => simp [hl] at h
+      | some m =>
+        simp only [hl] at h
+        injection h with h
+        exact ⟨by rw [h], fun _ _ => rfl⟩
+    · rw [if_neg hc] at h
+      injection h with h
+      refine ⟨by rw [h], fun h1 h2 => ?_⟩
+      simp [h1, h2] at hc
+
+example : (verifierFor (fun f => if f = "missing" then none else some f) { sig := true, sigKeys := true, sigStrict := true } [("good", "missing")]).isOk = false := by decide
 
 /-! ### non-vacuity -/
 
